@@ -216,58 +216,7 @@ Qed.
 Theorem only_reorders l : Permutation l (zsort l) /\ zsorted (zsort l).
 Proof. split; [apply isort_perm|apply isort_sorted]. Qed.
 
-(* ---------- measurements: for every sorted permutation the Go sort may produce ---------- *)
-Lemma map_nth_off (s : list meas) i : nth i (map m_off s) 0 = m_off (nth i s meas_zero).
-Proof. change 0 with (m_off meas_zero) at 1. apply map_nth. Qed.
-
-Lemma sorted_perm_offsets ms s : is_sorted_perm ms s -> map m_off s = zsort (map m_off ms).
-Proof.
-  intros [Hp Hs]. symmetry. apply zsorted_perm_unique.
-  - apply isort_sorted.
-  - apply sorted_by_map. exact Hs.
-  - eapply Permutation_trans; [apply Permutation_sym, isort_perm|]. apply Permutation_map. exact Hp.
-Qed.
-
-Theorem meas_ftm_offset ms s : is_sorted_perm ms s -> ms <> [] ->
-  ftm (map m_off ms) = Some (m_off (ftm_m_sorted s)) /\ m_err (ftm_m_sorted s) = false.
-Proof.
-  intros Hsp Hne. pose proof (sorted_perm_offsets ms s Hsp) as Ho.
-  split; [|reflexivity].
-  destruct ms as [|m r]; [congruence|]. cbn [map ftm]. cbn [map] in Ho. rewrite <- Ho.
-  unfold ftm_sorted, ftm_m_sorted. rewrite map_length. cbn [midpoint_m m_off]. rewrite !map_nth_off. reflexivity.
-Qed.
-
-Theorem meas_median_offset ms s : is_sorted_perm ms s -> ms <> [] ->
-  median (map m_off ms) = Some (m_off (median_m_sorted s)) /\ m_err (median_m_sorted s) = false.
-Proof.
-  intros Hsp Hne. pose proof (sorted_perm_offsets ms s Hsp) as Ho.
-  split.
-  - destruct ms as [|m r]; [congruence|]. cbn [map median]. cbn [map] in Ho. rewrite <- Ho.
-    unfold median_sorted, median_m_sorted. rewrite map_length.
-    destruct (Nat.eqb (length s mod 2) 0); cbn [midpoint_m m_off]; rewrite !map_nth_off; reflexivity.
-  - unfold median_m_sorted. destruct (Nat.eqb (length s mod 2) 0); reflexivity.
-Qed.
-
-Lemma half_sat_between a b : a <= b -> a <= a + go_div (time_sub b a) 2 <= b.
-Proof.
-  intros H. unfold go_div, time_sub, sat64.
-  destruct (b - a <? min_i64) eqn:E1; [unfold min_i64 in *; lia|].
-  destruct (max_i64 <? b - a) eqn:E2.
-  - unfold max_i64 in *. rewrite i64_id by (unfold min_i64, max_i64; vm_compute; split; discriminate).
-    change (Z.quot 9223372036854775807 2) with 4611686018427387903. lia.
-  - rewrite Z.quot_div_nonneg by lia.
-    assert (0 <= (b - a) / 2 <= b - a) by (split; [apply Z.div_pos; lia|apply Z.div_le_upper_bound; lia]).
-    rewrite i64_id by (unfold min_i64, max_i64 in *; lia). lia.
-Qed.
-
-Theorem meas_timestamp_between x y :
-  Z.min (m_ts x) (m_ts y) <= m_ts (midpoint_m x y) <= Z.max (m_ts x) (m_ts y).
-Proof.
-  unfold midpoint_m. cbn [m_ts].
-  destruct (m_ts y <? m_ts x) eqn:E; cbn [negb].
-  - pose proof (half_sat_between (m_ts y) (m_ts x)). lia.
-  - pose proof (half_sat_between (m_ts x) (m_ts y)). lia.
-Qed.
+(* measurements: Proofs/FtmMeasProofs.v *)
 
 Example ftm_example : ftm [10; -5; 1000000; 7] = Some 8 /\ C02_ftm_ok [(10, true); (-5, true); (1000000, false); (7, true)] 8 = true.
 Proof. vm_compute. split; reflexivity. Qed.
